@@ -28,14 +28,14 @@ def eval_with_defs(root, proof_files, evals, tag):
 
 
 P['C02'] = dict(
-    rule='x25: every 2-byte prefix (reaches each of the 2^16 register states once) and third bytes (3 random per state in quick, all 256 in thorough), random strings hashed in random splits; gate: valid frames of sampled common-dialect messages and of every message of a user-defined dialect (one-element arrays, one-character strings, extensions, enums, the 255-byte message; CRC_EXTRA of each definition compared first), v1 and v2, with every single-bit flip (a random third of them on the user dialect), byte substitutions and multi-byte damage, read by a dialect-configured frame.Reader. A case is non-trivial when the model output is not a bare rejection; distinct = distinct case lines.; the user dialect has messages with ids 254, 255, 256, 65535, 65536 and 2^24-1, and a missing codec for a message of the dialect is a verdict of its own; a Node created, closed, and a second Node created with the same dialect value after the application redefined one message and added another: frames valid under the new definitions delivered, a frame valid under the old definition and a damaged frame refused',
+    rule='x25: every 2-byte prefix (reaches each of the 2^16 register states once) and third bytes (3 random per state in quick, all 256 in thorough), random strings hashed in random splits; gate: valid frames of sampled common-dialect messages and of every message of a user-defined dialect (one-element arrays, one-character strings, extensions, enums, the 255-byte message; CRC_EXTRA of each definition compared first), v1 and v2, with every single-bit flip (a random third of them on the user dialect), byte substitutions and multi-byte damage, read by a dialect-configured frame.Reader. A case is non-trivial when the model output is not a bare rejection; distinct = distinct case lines.; the user dialect has messages with ids 254, 255, 256, 65535, 65536 and 2^24-1, and a missing codec for a message of the dialect is a verdict of its own; a Node created, closed, and a second Node created with the same dialect value after the application redefined one message and added another: frames valid under the new definitions delivered, a frame valid under the old definition and a damaged frame refused; a frame.ReadWriter value initialised twice (first without a dialect or with another one): it gates by the dialect of the second initialisation',
     assumptions=['the transport returns data or an error per Read call, never both',
                  'model of bufio.Reader (Model/Stream.v) stands for the Go standard library'],
     mismatch_meaning='the implementation\'s checksum / gate result differs from the model proved equal to CRC-16/MCRF4XX and to the gate specification: a concrete input on which the property fails',
 )
 
 P['C01'] = dict(
-    rule='frames built from boundary-value field tuples (header bytes {0,1,7f,80,fd,fe,ff}, ids {0,1,255,256,0x607,0xffff,0x10000,0xfffffe,0xffffff}, payload lengths {0,1,2,3,254,255}, timestamps around 2^24/2^32/2^40/2^48) mixed with random values, 2 versions x signed/unsigned; each written by frame.Writer.Write (bytes, number of transport writes, frame after the call) and read back by frame.Reader in one chunk or a random split followed by a junk byte. Non-trivial: the model output is not a bare rejection.; streams in which a completely parsed, then refused frame (signed v2 or v1 with a wrong checksum, dialect minimal) is followed by valid unsigned frames, read in one chunk and in a random split',
+    rule='frames built from boundary-value field tuples (header bytes {0,1,7f,80,fd,fe,ff}, ids {0,1,255,256,0x607,0xffff,0x10000,0xfffffe,0xffffff}, payload lengths {0,1,2,3,254,255}, timestamps around 2^24/2^32/2^40/2^48) mixed with random values, 2 versions x signed/unsigned; each written by frame.Writer.Write (bytes, number of transport writes, frame after the call) and read back by frame.Reader in one chunk or a random split followed by a junk byte. Non-trivial: the model output is not a bare rejection.; streams in which a completely parsed, then refused frame (signed v2 or v1 with a wrong checksum, dialect minimal) is followed by valid unsigned frames, read in one chunk and in a random split; twelve streams of seven frames of one message type (all-ones / zero / random values); everything a reader returned is rendered 300 cases later',
     assumptions=['bufio.Reader modelled by Model/Stream.v', 'domain of the property: payload <= 255 bytes, v2 ids < 2^24 (larger values are emitted truncated by the code and are not checked)'],
     mismatch_meaning='bytes emitted or frame read back differ from the model proved equal to the MAVLink layout and to round-trip: a concrete frame on which the property fails',
 )
@@ -72,7 +72,7 @@ def find_bad_struct(root):
     return 'message structs that no longer follow the MAVLink layout rules / whose codec is not well-formed: ' + out[:1500]
 
 P['C03'] = dict(
-    rule='every distinct message struct type of the 19 shipped dialects plus 18 user-defined structs with unusual shapes (mixed sizes, arrays, strings, plain char, extensions, enum arrays, mavname, 255-byte payload, invalid ones): CRCExtra(); probe encodings (each field and sampled array elements in turn set to a distinctive pattern, all others zero; all-zero; all-ones; random/boundary values) in v1 and v2; decoding of the encodings and of random full-size payloads. Non-trivial: the model produced bytes / a value / a CRC.',
+    rule='every distinct message struct type of the 19 shipped dialects plus 18 user-defined structs with unusual shapes (mixed sizes, arrays, strings, plain char, extensions, enum arrays, mavname, 255-byte payload, invalid ones): CRCExtra(); probe encodings (each field and sampled array elements in turn set to a distinctive pattern, all others zero; all-zero; all-ones; random/boundary values) in v1 and v2; decoding of the encodings and of random full-size payloads. Non-trivial: the model produced bytes / a value / a CRC.; every encoded payload is also kept as returned and rendered 300 cases later',
     assumptions=['reflect and sort.Slice are modelled: the regenerated struct descriptions stand for reflect, the order theorem covers any sorted permutation'],
     mismatch_meaning='CRC_EXTRA or encoded/decoded layout differs from the model whose table instance is proved equal to the MAVLink rules: concrete message and value',
     find_bad=find_bad_struct,
@@ -91,21 +91,21 @@ def find_bad_c17(root):
     return ((w or '') + ' | dialects failing init / disagreeing enum constants / golden CRC mismatches / released messages whose CRC_EXTRA changed (dialect, id, type) / same id+name with different Go types: ' + out)[:2500]
 
 P['C17'] = dict(
-    rule='all 19 shipped dialects: Initialize, CRCExtra of every message, GetMessage for every defined id, its neighbours +-1, 300 (quick) / 20000 (thorough) random ids of the 2^24 space and the ids 2^24-1, 2^24, 2^32-1 (checking the returned codec belongs to the message with that id); 120 / 2000 user dialects built from random subsets with injected duplicate ids and malformed structs. Non-trivial: lookup found a codec or initialisation succeeded.; obligation on the regenerated tables: 395 released messages (id, Go type name) keep the CRC_EXTRA of Spec/CrcSnapshot.v in every shipped dialect other than development; eight goroutines looking up ids (a few of their own each, now and then any, absent ones included) 20000 / 400000 times on one shared dialect.ReadWriter: every lookup returns the codec of the message with that id',
+    rule='all 19 shipped dialects: Initialize, CRCExtra of every message, GetMessage for every defined id, its neighbours +-1, 300 (quick) / 20000 (thorough) random ids of the 2^24 space and the ids 2^24-1, 2^24, 2^32-1 (checking the returned codec belongs to the message with that id); 120 / 2000 user dialects built from random subsets with injected duplicate ids and malformed structs. Non-trivial: lookup found a codec or initialisation succeeded.; obligation on the regenerated tables: 395 released messages (id, Go type name) keep the CRC_EXTRA of Spec/CrcSnapshot.v in every shipped dialect other than development; eight goroutines looking up ids (a few of their own each, now and then any, absent ones included) 20000 / 400000 times on one shared dialect.ReadWriter: every lookup returns the codec of the message with that id; lookup sequences present, absent, absent, present for every message of common; a node, then a duplicate id / malformed struct added to the same dialect value, second node refused',
     assumptions=['Go map modelled as an association list (order irrelevant: ids unique after Initialize)'],
     mismatch_meaning='dialect initialisation or id lookup differs from the model proved correct for every id: concrete dialect and id',
     find_bad=find_bad_c17,
 )
 
 P['C04'] = dict(
-    rule='every distinct message type of the shipped dialects and 11 user-defined shapes: random/boundary values (NaN payloads incl. signalling NaNs, -0, min/max, strings with NUL and over-length) encoded and decoded back in v1 and v2; decoding of payloads of every length 0..256, 300, 600 (all lengths for 12 sampled types in quick, boundary lengths around the base and extended sizes for all; thorough: all lengths for all types) filled with 00 / FF / random; Read on a payload that is a prefix of a larger sentinel-filled backing array (cap > len), backing array compared afterwards. Non-trivial: the model produced bytes / a decoded value.; the payload returned by a Write is compared again after the next Write and Read on the same codec',
+    rule='every distinct message type of the shipped dialects and 11 user-defined shapes: random/boundary values (NaN payloads incl. signalling NaNs, -0, min/max, strings with NUL and over-length) encoded and decoded back in v1 and v2; decoding of payloads of every length 0..256, 300, 600 (all lengths for 12 sampled types in quick, boundary lengths around the base and extended sizes for all; thorough: all lengths for all types) filled with 00 / FF / random; Read on a payload that is a prefix of a larger sentinel-filled backing array (cap > len), backing array compared afterwards. Non-trivial: the model produced bytes / a decoded value.; the payload returned by a Write is compared again after the next Write and Read on the same codec; encoded payloads are rendered 300 cases later; a message decoded from a buffer the caller then overwrites is rendered later',
     assumptions=['reflect is modelled by the struct description; Go slices by (backing array, len)'],
     mismatch_meaning='encode/decode result (or the caller\'s backing array after Read) differs from the model proved to round-trip, to be truncation-invariant, panic-free and to leave the caller\'s buffer alone: concrete message, version and payload',
     find_bad=find_bad_struct,
 )
 
 P['C08'] = dict(
-    rule='common-dialect messages (those with strings first; 40 in quick, all in thorough) in v1 and v2, signed and unsigned, in six payload encodings (canonical, not zero-truncated, random bytes after NUL bytes, unknown trailing bytes beyond the extended size, fully random, sparse random) forwarded through 3 dialect hops (each hop: frame.Reader with the dialect -> frame.Writer.Write unchanged; the implementation\'s output of hop k is the input of hop k+1) and 2 raw hops (bytes must be identical); unknown ids through a dialect router; a received frame edited (message replaced by a random value of its type) then Node.FixFrame with and without OutKey, then validated at a next hop (keyed when the frame carries the signed flag). Non-trivial: a frame was delivered.; the largest frames (253..255-byte payloads, signed) laid out by hand; streams of 2..9 raw frames read ahead completely from one transport and only then written out again, byte for byte; a router built on a Node forwards eight received STATUSTEXT frames with WriteFrameExcept and then changes the message struct it was handed while the destination link is blocked in its first write: the next hop reads eight valid frames carrying the messages as received',
+    rule='common-dialect messages (those with strings first; 40 in quick, all in thorough) in v1 and v2, signed and unsigned, in six payload encodings (canonical, not zero-truncated, random bytes after NUL bytes, unknown trailing bytes beyond the extended size, fully random, sparse random) forwarded through 3 dialect hops (each hop: frame.Reader with the dialect -> frame.Writer.Write unchanged; the implementation\'s output of hop k is the input of hop k+1) and 2 raw hops (bytes must be identical); unknown ids through a dialect router; a received frame edited (message replaced by a random value of its type) then Node.FixFrame with and without OutKey, then validated at a next hop (keyed when the frame carries the signed flag). Non-trivial: a frame was delivered.; the largest frames (253..255-byte payloads, signed) laid out by hand; streams of 2..9 raw frames read ahead completely from one transport and only then written out again, byte for byte; a router built on a Node forwards eight received STATUSTEXT frames with WriteFrameExcept and then changes the message struct it was handed while the destination link is blocked in its first write: the next hop reads eight valid frames carrying the messages as received; in the Node router every frame arrives twice, byte for byte, and the application edits the decoded message it was handed',
     assumptions=['signature validation after FixFrame is checked for frames that carry the signed flag (FixFrame does not set the flag on an unsigned frame; recorded in DESIGN.md)'],
     mismatch_meaning='a hop delivered / re-emitted something different from the model proved to forward transparently: concrete wire bytes',
     find_bad=find_bad_struct,
@@ -126,7 +126,7 @@ def find_bad_c19(root):
     return 'bitmask enums whose zero / constants / union do not round-trip (with the failing values), then ordinary enums with inconsistent maps: ' + out[:2500]
 
 P['C19'] = dict(
-    rule='every enum type of the shipped dialects with text methods (registry regenerated from the sources on every run): zero, every defined constant, for bitmask enums random combinations of the single-bit flags and the union of all flags, for ordinary enums random/boundary unnamed values over the whole uint64 range incl. 2^63-1, 2^63, 2^63+1, 2^64-1; MarshalText then UnmarshalText compared with the model (text and value); parsing of garbage, numerals, names and name combinations. Non-trivial: the round trip produced a value.; every parse also goes into a variable that already holds other bits; eight enums of a dialect generated on the spot by the real generator (plain, bitmask, a flag above the entry count, a bitmask and an ordinary enum of an included definition extended by the including one) are compiled with a probe and round-tripped the same way; the generated dialect also has zero-padded decimal values (010, 0100, 09; flags 016, 032); the slice returned by MarshalText for one value is kept and must read the same after the next value was rendered',
+    rule='every enum type of the shipped dialects with text methods (registry regenerated from the sources on every run): zero, every defined constant, for bitmask enums random combinations of the single-bit flags and the union of all flags, for ordinary enums random/boundary unnamed values over the whole uint64 range incl. 2^63-1, 2^63, 2^63+1, 2^64-1; MarshalText then UnmarshalText compared with the model (text and value); parsing of garbage, numerals, names and name combinations. Non-trivial: the round trip produced a value.; every parse also goes into a variable that already holds other bits; eight enums of a dialect generated on the spot by the real generator (plain, bitmask, a flag above the entry count, a bitmask and an ordinary enum of an included definition extended by the including one) are compiled with a probe and round-tripped the same way; the generated dialect also has zero-padded decimal values (010, 0100, 09; flags 016, 032); the slice returned by MarshalText for one value is kept and must read the same after the next value was rendered; the slice returned by MarshalText is parsed 300 cases later',
     assumptions=['Go maps labels_X / values_X are read from the source by go/ast and modelled as association lists'],
     mismatch_meaning='text rendering or parsing of an enum value differs from the model proved to round-trip: concrete enum type and value',
     find_bad=find_bad_c19,
@@ -173,14 +173,14 @@ def cmp_scen(case, impl, model):
 
 P['C10'] = dict(
     bin='scen', compare=cmp_scen,
-    rule='real gomavlib.Node over 1..4 custom endpoints with scripted in-memory transports; per channel a history of valid frames (v1/v2, signed on keyed links), complete frames with a wrong checksum / signature / missing signature and junk without frame markers, fed in random chunks from concurrent feeders; a transport error ends a channel (close event) and the endpoint opens the next one with its own history; consumer fast / slow / bursty; 0..2 concurrent writers; GOMAXPROCS 1/2/16. Observed per channel: the ordered event sequence, compared for equality with the model prediction (open, one event per read result of the frame-reader model on the same bytes, close). Close-race scenarios (consumer absent while frames arrive, Close(), then ranging over Events()): the observation must be a prefix of the prediction. Non-trivial: at least one frame event predicted.; four channels decoding 300 truncated v2 payloads of the same message type at once (every frame tagged with channel and index: a channel must see exactly its own frames in order); a TCP server channel with a 300 ms idle time-out whose application pauses twice for longer than that while the peer keeps sending (nothing lost, channel stays open); one UDP datagram of 13 / 25 / 66 (thorough: 1..300) back-to-back frames sent to a UDP server endpoint and to a UDP client endpoint: every frame delivered in order, no parse error (finding F13); refused frames on links without a key may be signed',
+    rule='real gomavlib.Node over 1..4 custom endpoints with scripted in-memory transports; per channel a history of valid frames (v1/v2, signed on keyed links), complete frames with a wrong checksum / signature / missing signature and junk without frame markers, fed in random chunks from concurrent feeders; a transport error ends a channel (close event) and the endpoint opens the next one with its own history; consumer fast / slow / bursty; 0..2 concurrent writers; GOMAXPROCS 1/2/16. Observed per channel: the ordered event sequence, compared for equality with the model prediction (open, one event per read result of the frame-reader model on the same bytes, close). Close-race scenarios (consumer absent while frames arrive, Close(), then ranging over Events()): the observation must be a prefix of the prediction. Non-trivial: at least one frame event predicted.; four channels decoding 300 truncated v2 payloads of the same message type at once (every frame tagged with channel and index: a channel must see exactly its own frames in order); a TCP server channel with a 300 ms idle time-out whose application pauses twice for longer than that while the peer keeps sending (nothing lost, channel stays open); one UDP datagram of 13 / 25 / 66 (thorough: 1..300) back-to-back frames sent to a UDP server endpoint and to a UDP client endpoint: every frame delivered in order, no parse error (finding F13); refused frames on links without a key may be signed; two or three consecutive frames with an id outside the dialect',
     assumptions=['scheduler perturbation (GOMAXPROCS, sleeps, Gosched) is search, not proof; the all-schedules claim is the LTS theorem', 'waiting is on predicted observables with a 20 s timeout'],
     mismatch_meaning='the event sequence the application observed from a channel differs from the sequence every execution of the node model produces (open first, one event per input in order, close last): concrete input history',
 )
 
 P['C11'] = dict(
     bin='scen', compare=cmp_scen,
-    rule='real Node over 1..5 custom endpoints; 1..3 submitter goroutines each issuing 3..17 calls drawn from the six Write* calls (messages and forwarded frames carrying a serial number; targets all / one / all-but-one, sometimes a channel of another node), with concurrent incoming traffic, GOMAXPROCS 1/2/16; total per channel below the queue size so nothing may be dropped; a FIFO marker per channel closes the observation. Per channel: every transport write must be exactly one frame; forwarded frames keep their header, originated messages carry the configured ids and per-link sequence numbers 0,1,2,..; the serial sequence on the wire is checked by the extracted acceptance predicate fan_ok (restricted to any submitter it equals that submitter\'s targeted submissions in order, and holds nothing else). Non-trivial: the predicate was evaluated on a non-empty wire.; router scenarios (every received frame forwarded to the other channels while several more arrive in the same transport read, with and without a dialect: forwarded bytes identical, in order, nothing back to the sender); a stalled sibling channel with an overflowing queue must not keep anything from the healthy one nor block the submitter; ArduPilot heartbeats from 20..40 distinct components (one burst of seven stream requests each) while the application writes 40..80 messages to the same channel: every write on the wire is one whole frame, sequence numbers gapless, count exact; a router variant that also answers with stream requests; signed-v2, v2 and v1 nodes writing messages with payloads of 250..255 bytes next to small ones, as messages and as frames to forward: every transport write is exactly one frame that reads back (with the key) as the item submitted, in order; forty raw messages of the dialect ending in zero bytes written to all three channels of a v2 node: valid frames in order on every channel and the application\'s message unchanged; one message object reused for twelve WriteMessageAll calls, changed between submissions, while one of two channels is blocked in its first write: both wires carry 1..12',
+    rule='real Node over 1..5 custom endpoints; 1..3 submitter goroutines each issuing 3..17 calls drawn from the six Write* calls (messages and forwarded frames carrying a serial number; targets all / one / all-but-one, sometimes a channel of another node), with concurrent incoming traffic, GOMAXPROCS 1/2/16; total per channel below the queue size so nothing may be dropped; a FIFO marker per channel closes the observation. Per channel: every transport write must be exactly one frame; forwarded frames keep their header, originated messages carry the configured ids and per-link sequence numbers 0,1,2,..; the serial sequence on the wire is checked by the extracted acceptance predicate fan_ok (restricted to any submitter it equals that submitter\'s targeted submissions in order, and holds nothing else). Non-trivial: the predicate was evaluated on a non-empty wire.; router scenarios (every received frame forwarded to the other channels while several more arrive in the same transport read, with and without a dialect: forwarded bytes identical, in order, nothing back to the sender); a stalled sibling channel with an overflowing queue must not keep anything from the healthy one nor block the submitter; ArduPilot heartbeats from 20..40 distinct components (one burst of seven stream requests each) while the application writes 40..80 messages to the same channel: every write on the wire is one whole frame, sequence numbers gapless, count exact; a router variant that also answers with stream requests; signed-v2, v2 and v1 nodes writing messages with payloads of 250..255 bytes next to small ones, as messages and as frames to forward: every transport write is exactly one frame that reads back (with the key) as the item submitted, in order; forty raw messages of the dialect ending in zero bytes written to all three channels of a v2 node: valid frames in order on every channel and the application\'s message unchanged; one message object reused for twelve WriteMessageAll calls, changed between submissions, while one of two channels is blocked in its first write: both wires carry 1..12; a custom transport that stores one byte at a time and outlives three channels (read faults under a constant backlog): the wire parses as whole frames',
     assumptions=['acceptance predicate fan_ok is the decidable form of C11_exactly_once + C11_wire_in_order when no queue overflows', 'scheduler perturbation is search'],
     mismatch_meaning='a wire shows a lost, duplicated, reordered, foreign or torn item, or wrong header fields: concrete submission history',
 )
@@ -193,7 +193,7 @@ P['C13'] = dict(
 
 P['C12'] = dict(
     bin='scen', compare=cmp_scen,
-    rule='real Node; Close() issued at scripted points: before the first event is consumed, reader blocked on an undelivered event, idle, writer blocked in the transport (a transport whose Write only returns on Close), channel mid-close (read error just before), traffic in flight, 100 pending writes — each with the consumer running and absent, 1..3 custom endpoints, 0..2 goroutines calling WriteMessageAll before, during and after Close, GOMAXPROCS 1/2/16; then network endpoints over loopback (TCP/UDP server with a peer, TCP client connected and in reconnect back-off, UDP client, UDP broadcast) and a node whose initialisation fails on its third endpoint. Observed: Close returns within 8 s, ranging over Events() ends, each custom transport closed exactly once, no goroutine running gomavlib/pion code is left, Write* callers returned without panic, TCP/UDP ports can be bound again. Every case expects the verdict ok. Non-trivial: every case.; read error while a Write is stuck in a serial device; a device handed out while Close is in progress must be closed; Close with a stuck channel whose queue has overflowed; Close() called directly after NewNode() (GOMAXPROCS 1/2/16, heartbeats on and off): no device may be opened after Close returned; odd but possible settings of the broadcast endpoint and a late-failing endpoint list: whatever the outcome of the initialisation, the local port is free after the failure or after Close; Close after 1..5 ms of a 100..500 microsecond heartbeat period (30 times); transports that release a blocked Read 300 ms late (one look for live goroutines 40 ms after Close returned); outcome-agnostic node settings with extreme numbers (stream request rate 65535 / 65536 / -1 / 2^40, ids 255, heartbeat types 255 / -1, v1 with a key, system id 0, time-outs of 1 ns) over TCP server + UDP server + custom endpoint, each on a port of its own: after a refusal or after Close the ports are free, no goroutine is left and the custom transport was closed exactly once when the node ran; a Node value taken through Initialize / Close three times (new custom transport each life, the same TCP server port): every Close returns, the event channel is closed, the port is free, no goroutine is left',
+    rule='real Node; Close() issued at scripted points: before the first event is consumed, reader blocked on an undelivered event, idle, writer blocked in the transport (a transport whose Write only returns on Close), channel mid-close (read error just before), traffic in flight, 100 pending writes — each with the consumer running and absent, 1..3 custom endpoints, 0..2 goroutines calling WriteMessageAll before, during and after Close, GOMAXPROCS 1/2/16; then network endpoints over loopback (TCP/UDP server with a peer, TCP client connected and in reconnect back-off, UDP client, UDP broadcast) and a node whose initialisation fails on its third endpoint. Observed: Close returns within 8 s, ranging over Events() ends, each custom transport closed exactly once, no goroutine running gomavlib/pion code is left, Write* callers returned without panic, TCP/UDP ports can be bound again. Every case expects the verdict ok. Non-trivial: every case.; read error while a Write is stuck in a serial device; a device handed out while Close is in progress must be closed; Close with a stuck channel whose queue has overflowed; Close() called directly after NewNode() (GOMAXPROCS 1/2/16, heartbeats on and off): no device may be opened after Close returned; odd but possible settings of the broadcast endpoint and a late-failing endpoint list: whatever the outcome of the initialisation, the local port is free after the failure or after Close; Close after 1..5 ms of a 100..500 microsecond heartbeat period (30 times); transports that release a blocked Read 300 ms late (one look for live goroutines 40 ms after Close returned); outcome-agnostic node settings with extreme numbers (stream request rate 65535 / 65536 / -1 / 2^40, ids 255, heartbeat types 255 / -1, v1 with a key, system id 0, time-outs of 1 ns) over TCP server + UDP server + custom endpoint, each on a port of its own: after a refusal or after Close the ports are free, no goroutine is left and the custom transport was closed exactly once when the node ran; a Node value taken through Initialize / Close three times (new custom transport each life, the same TCP server port): every Close returns, the event channel is closed, the port is free, no goroutine is left; Close after six heartbeats of two ArduPilot senders with stream requests enabled',
     assumptions=['fairness of the Go scheduler and OS release of sockets are measured, not proved', 'goroutine-leak probe: stacks containing gomavlib or pion frames, polled up to 3 s'],
     mismatch_meaning='Close did not return, or left a goroutine, socket, open event channel or unclosed custom transport behind, or a Write* call blocked / panicked: the scenario description is the replay',
 )
@@ -207,7 +207,7 @@ P['C14'] = dict(
 
 P['C16'] = dict(
     bin='scen', compare=cmp_scen,
-    rule='(1) heartbeats: a real Node over 1..3 scripted pipes, period 80..160 ms, random system type / autopilot type, six dialects (shipped minimal and common, custom with the standard heartbeat, without id 0, with a non-standard id 0, with a non-standard id 66,), no dialect, disabled: after 5.5 periods every pipe must hold only heartbeats with exactly the model\'s field values, or nothing when the model says off; count within [4,6], first heartbeat not before 0.6 period, gaps within [0.5,1.5] period (retried up to 3 times before TIMING is reported); (2) stream requests: histories of 5..44 frames (heartbeats from systems 1/2/10/255 x components 1/2/255 — 10 is the system id of the node itself, 10.1 its identity — with autopilot 3/0/8/12, other messages, v1 and v2) over 1..3 channels, enable on/off, frequency 0/1/4/10/300/65535: per channel the decoded requests written (fields, order, sender ids) and the event sequence (stream-requested before the frame event) compared with the model; (3) in real time, run beside the rest: quick 34 s across one cleaner tick (entries younger than 30 s survive the tick, older ones are requested again), thorough 63 s across two ticks (a cleaned entry is requested again). Non-trivial: heartbeats observed, or at least one request burst.; three nodes with different heartbeat settings alive at the same time on one dialect object, twice',
+    rule='(1) heartbeats: a real Node over 1..3 scripted pipes, period 80..160 ms, random system type / autopilot type, six dialects (shipped minimal and common, custom with the standard heartbeat, without id 0, with a non-standard id 0, with a non-standard id 66,), no dialect, disabled: after 5.5 periods every pipe must hold only heartbeats with exactly the model\'s field values, or nothing when the model says off; count within [4,6], first heartbeat not before 0.6 period, gaps within [0.5,1.5] period (retried up to 3 times before TIMING is reported); (2) stream requests: histories of 5..44 frames (heartbeats from systems 1/2/10/255 x components 1/2/255 — 10 is the system id of the node itself, 10.1 its identity — with autopilot 3/0/8/12, other messages, v1 and v2) over 1..3 channels, enable on/off, frequency 0/1/4/10/300/65535: per channel the decoded requests written (fields, order, sender ids) and the event sequence (stream-requested before the frame event) compared with the model; (3) in real time, run beside the rest: quick 34 s across one cleaner tick (entries younger than 30 s survive the tick, older ones are requested again), thorough 63 s across two ticks (a cleaned entry is requested again). Non-trivial: heartbeats observed, or at least one request burst.; three nodes with different heartbeat settings alive at the same time on one dialect object, twice; a TCP server with two peers: A answered once, B leaves, A not answered again within 30 s',
     assumptions=['tick spacing is the Go runtime ticker\'s; checked inside a tolerant bracket with retries', 'the real-time history leaves margins of 1.5 s around the 30 s threshold'],
     mismatch_meaning='the heartbeats or stream requests observed on the real node (content, count of seven, addressing, events, absence when disabled or non-standard) differ from the model the C16 theorems are proved about',
 )
@@ -311,7 +311,7 @@ P['C15'] = dict(
 )
 
 P['C18'] = dict(
-    rule='grammar-based random dialect definitions (12 packages in quick, 60 in thorough): a root XML with 0..2 includes, possibly a common file included from several (diamond), versions present or absent per file; enums with decimal / 0x (both cases) / 0b / 2**k values, bitmask or not; messages whose names use digits, double and trailing underscores; 1..9 fields per message over all ten scalar types, arrays, char[n], plain char, enum-typed integer fields and arrays of them, uint8_t_mavlink_version, extensions from a random position; field names in snake case and in shapes that do not convert back (capitals, digits after underscores, double and trailing underscores). The real conversion.Convert writes the Go package (link mode off) into the harness module, twice (files compared byte for byte); a generated probe imports every package, and the harness compares with the model: per message the struct as reflection reports it (names, array lengths, element types, kinds, all four tags), its id and the CRC_EXTRA the run-time computes; every enum constant; the dialect (Initialize result, version, message order across includes); plus definitions that must be refused (unknown types, bad message names, 15 malformed enum values, a missing include). Non-trivial: a generated message or a constant.; every other generated package extends an enum of a definition it includes (so that generating twice in one process meets the merge)',
+    rule='grammar-based random dialect definitions (12 packages in quick, 60 in thorough): a root XML with 0..2 includes, possibly a common file included from several (diamond), versions present or absent per file; enums with decimal / 0x (both cases) / 0b / 2**k values, bitmask or not; messages whose names use digits, double and trailing underscores; 1..9 fields per message over all ten scalar types, arrays, char[n], plain char, enum-typed integer fields and arrays of them, uint8_t_mavlink_version, extensions from a random position; field names in snake case and in shapes that do not convert back (capitals, digits after underscores, double and trailing underscores). The real conversion.Convert writes the Go package (link mode off) into the harness module, twice (files compared byte for byte); a generated probe imports every package, and the harness compares with the model: per message the struct as reflection reports it (names, array lengths, element types, kinds, all four tags), its id and the CRC_EXTRA the run-time computes; every enum constant; the dialect (Initialize result, version, message order across includes); plus definitions that must be refused (unknown types, bad message names, 15 malformed enum values, a missing include). Non-trivial: a generated message or a constant.; every other generated package extends an enum of a definition it includes (so that generating twice in one process meets the merge); after three definitions refused at an extension field with a non-snake-case name every good package is generated again and gives the same files',
     assumptions=['the Go compiler and reflect are trusted to mean what the language says of the emitted text; only what the probe reports is compared', 'valid definitions: message names [A-Z][A-Z0-9_]*, field names starting with a letter, array lengths without leading zeros, unique Go names inside a message, unique enum values inside an enum'],
     mismatch_meaning='the package the generator wrote, once compiled, differs from the model of the generator the C18 theorems are proved about (struct shape, tags, CRC_EXTRA, constants, version, message order), or the generator accepted what it cannot express, or its output differs between two runs',
 )
